@@ -388,3 +388,6 @@ CLAIMS["C04"]["note"] += (" The WebSocket layer uses real sockets and real time:
 
 CLAIMS["C05"]["text"] += (" Callers may arrive with a context that is already over (cancelled or expired); O10: once every caller has returned no dial-worker goroutine is alive (goroutine dump). A dial worker may linger (yields, or 1 us - 50 ms of virtual time) between noticing that its last caller left and cleaning up after itself (schedule point dialWorker:exiting, build tag verif), so that a new worker for the same peer is at work meanwhile. "
     "Address kinds include ws/wss on the IP and port number of a quic-v1 entry and webtransport on those of a tcp entry (nothing shadows them across layer-4 protocols: they must be attempted).")
+
+CLAIMS["C17"]["text"] += (" Connections are drawn from {direct, relayed} (remote address <relay>/p2p/<relay id>/p2p-circuit, observer = relay's IPv4 address or IPv6 /56): reports on relayed connections are held to the same count, replace and withdraw-on-close oracle as direct ones, in the generated histories and in the boundary and ineligible sweeps.")
+CLAIMS["C17"]["note"] += (" 'Relayed reports never count' is read on the observed address; a plain observed address reported over a relayed connection counts with the relay's IP as observer and must be withdrawn on change or close.")
